@@ -43,6 +43,9 @@ func (g *gen) num() string {
 	if g.o.AllowOverflow && rapid.IntRange(0, 30).Draw(t, "ovf") == 0 {
 		return rapid.SampledFrom(overflowPool).Draw(t, "ovflit")
 	}
+	if (g.o.Lattice || g.o.ValidLonLat) && rapid.IntRange(0, 60).Draw(t, "invalidord") == 0 {
+		return rapid.SampledFrom([]string{"180.5", "-90.5", "999", "-181", "91", "-1e3"}).Draw(t, "invalidlit")
+	}
 	m := rapid.IntRange(0, 9).Draw(t, "numkind")
 	if g.o.Lattice && m < 7 {
 		return strconv.Itoa(rapid.IntRange(-3, 12).Draw(t, "lat"))
@@ -141,6 +144,9 @@ func (g *gen) posDims(first int) int {
 func (g *gen) line() string {
 	t := g.t
 	n := rapid.IntRange(2, 6).Draw(t, "linelen")
+	if rapid.IntRange(0, 19).Draw(t, "longline") == 0 {
+		n = rapid.IntRange(17, 70).Draw(t, "longlinelen") // long enough for R-tree splits and the default index threshold
+	}
 	if g.mutate("line") {
 		switch rapid.IntRange(0, 2).Draw(t, "linemut") {
 		case 0:
@@ -166,6 +172,9 @@ func (g *gen) line() string {
 func (g *gen) ring(d int) string {
 	t := g.t
 	n := rapid.IntRange(3, 6).Draw(t, "ringlen") // distinct positions before closing
+	if rapid.IntRange(0, 19).Draw(t, "longring") == 0 {
+		n = rapid.IntRange(17, 70).Draw(t, "longringlen")
+	}
 	var parts []string
 	for i := 0; i < n; i++ {
 		dd := d
@@ -218,6 +227,11 @@ func (g *gen) rectPolygon() string {
 	pts := [][2]int{{x0, y0}, {x1, y0}, {x1, y1}, {x0, y1}, {x0, y0}}
 	if rapid.IntRange(0, 3).Draw(t, "rrev") == 0 {
 		pts = [][2]int{{x0, y0}, {x0, y1}, {x1, y1}, {x1, y0}, {x0, y0}}
+	}
+	if rapid.IntRange(0, 2).Draw(t, "rnear") == 0 {
+		// almost a rectangle: one of the inner vertices moved along one axis
+		i := rapid.IntRange(1, 3).Draw(t, "rvi")
+		pts[i][rapid.IntRange(0, 1).Draw(t, "raxis")] += rapid.SampledFrom([]int{-3, -1, 1, 2, 5}).Draw(t, "rdelta")
 	}
 	var parts []string
 	for _, p := range pts {
@@ -272,6 +286,9 @@ func (g *gen) foreignMembers(isFeature bool) []string {
 		k := rapid.SampledFrom(keyPool).Draw(t, "fkey")
 		if g.mutate("reserved") {
 			k = rapid.SampledFrom([]string{`"geometry"`, `"coordinates"`, `"features"`, `"geometries"`}).Draw(t, "reskey")
+		}
+		if g.o.Noise && len(k) > 3 && rapid.IntRange(0, 9).Draw(t, "fkeyesc") == 0 && k[1] < 0x80 && k[1] != '\\' && k[1] != '"' {
+			k = `"` + fmt.Sprintf("\\u%04x", k[1]) + k[2:] // first character written as a \u escape
 		}
 		v := g.jsonValue(2)
 		if k == `"properties"` && rapid.Bool().Draw(t, "propobj") {
